@@ -173,7 +173,8 @@ impl LangInterpreter for French {
             }
             "million" | "millionième" if b.is_range_free(6, 8) => b.shift(6),
             "milliard" | "milliardième" => b.shift(9),
-            "et" if b.len() >= 2 => Err(Error::Incomplete),
+            // "et" never follows "dix" ("dix et un" is not 11): it would lift the unit block
+            "et" if b.len() >= 2 && !blocked.contains(Excludable::DEUX) => Err(Error::Incomplete),
 
             _ => Err(Error::NaN),
         };
